@@ -64,8 +64,10 @@ def run(repo='/repo', tier='quick'):
     res.floor('C16.b', 'assignments of HTP_STREAM_TUNNEL', len(writers), 1)
     for f, fld, b, i, x in writers:
         facts = [a for a, e in P.facts_at(f, b)]
-        probe = ('methodi', '==', 'HTP_M_UNKNOWN') in facts
-        sw = any(a[0].endswith('response_status_number') and a[1] == '==' and a[2] == '101' for a in facts) and ('te', '==', '0') in facts and ('cl', '==', '0') in facts
+        mi = P.local_init_from(f, lambda e: e is not None and e.get('k') == 'call' and e.get('callee') == 'htp_convert_method_to_number') or 'methodi'
+        probe = (mi, '==', 'HTP_M_UNKNOWN') in facts
+        t_, c_ = P.table_lookup_local(f, 'transfer-encoding'), P.table_lookup_local(f, 'content-length')
+        sw = any(a[0].endswith('response_status_number') and a[1] == '==' and a[2] == '101' for a in facts) and (t_, '==', '0') in facts and (c_, '==', '0') in facts
         key = '%s:%s=TUNNEL' % (f.name, fld)
         if probe or sw:
             res.holds('C16.b', key, 'guarded by ' + ('the tunnel probe finding a non-HTTP method' if probe else 'status 101 without T-E and C-L'), x['loc'])
